@@ -282,7 +282,7 @@ impl Sub for Shared {
                 for u in adds.iter().filter(|a| alive.contains(&a.uid)) {
                     for v in adds.iter().filter(|a| !alive.contains(&a.uid)) {
                         cx.label("survivor_and_dead_same_key");
-                        ensure!(!precedes(u, v), "shared:not_linearizable_survivor_before_dead", "key g{k}: {u:?} survives, {v:?} (added after it returned) is gone");
+                        ensure!(!precedes(u, v), "shared:not_linearizable_survivor_before_dead", "key g{k}: {u:?} survives, {v:?} (added after it returned) is gone; deletes of the key: {dels:?}; segments {max_segments}");
                     }
                 }
             }
